@@ -7,7 +7,25 @@ package sym
 // call and the file-system harnesses call them thousands of times per path). Any symbolic
 // argument: not handled here, the SSA body runs as before.
 
-import "path/filepath"
+import (
+	"fmt"
+	"os"
+	"path/filepath"
+)
+
+var debugPrintOn = os.Getenv("VERIF_PRINT") != ""
+
+// debugPrintln backs the print/println builtins of harness code (development aid, off by default).
+func debugPrintln(args []value) {
+	if !debugPrintOn {
+		return
+	}
+	out := make([]any, len(args))
+	for i, a := range args {
+		out[i] = normStr(a)
+	}
+	fmt.Fprintln(os.Stderr, append([]any{"VERIF-PRINT:"}, out...)...)
+}
 
 func init() {
 	conc := func(v value) (string, bool) {
